@@ -447,9 +447,13 @@ def create_for_single_files_subcommand(
 
     hash_format_list = sorted(hash_formats)
 
+    # a file can be given more than once (twice, or as part of a folder that is given as well), seal it only once
+    sealed_file_paths = set()
+
     for path in single_file:
         if not os.path.isabs(path):
             path = os.path.join(os.getcwd(), path)
+        path = os.path.normpath(path)
         if os.path.isdir(path):
             # patterns are relative to the root folder of the history, not to the folder given with -sf
             for folder_path, children in post_order_lexicographic(
@@ -457,8 +461,9 @@ def create_for_single_files_subcommand(
             ):
                 for item_name, is_dir in children:
                     file_path = os.path.join(folder_path, item_name)
-                    if is_dir:
+                    if is_dir or file_path in sealed_file_paths:
                         continue
+                    sealed_file_paths.add(file_path)
                     seal_result = seal_file_path(existing_history, file_path, hash_format_list, session)
                     # Determine success based on the first format in the list
                     # TODO: Consider checking all results.  Would it be practical to do so?
@@ -466,7 +471,8 @@ def create_for_single_files_subcommand(
                     success = seal_result[hash_format_list[0]].success
                     if not success:
                         num_failed_verifications += 1
-        else:
+        elif path not in sealed_file_paths:
+            sealed_file_paths.add(path)
             seal_result = seal_file_path(existing_history, path, hash_format_list, session)
             success = seal_result[hash_format_list[0]].success
             if not success:
